@@ -37,6 +37,8 @@ def eval_ref(ref, src):
         return src[ref['s']][ref['p']] + 1
     if k == 'method':
         return src[ref['s']]['x'] + 1
+    if k == 'msub':           # a method depending on 'x' and, through the source's sub-object, on 'sub.v'
+        return src[ref['s']]['x'] + src[ref['s']]['subv']
     if k == 'rx':
         x = src[ref['s']][ref['p']]
         return {'dbl': x * 2, 'inc': x + 1, 'str': f"v{x}"}[ref['f']]
@@ -58,6 +60,8 @@ def ref_sources(ref):
         return {(ref['s'], 'x'), (ref['s2'], 'y')}
     if k == 'method':
         return {(ref['s'], 'x')}
+    if k == 'msub':
+        return {(ref['s'], 'x'), (ref['s'], 'subv')}
     return {(ref['s'], ref['p'])}
 
 
@@ -98,8 +102,10 @@ class RefsWorld:
         if pname == 't':
             k = rng.choice(['bind', 'rx'])
             return {'k': k, 's': rng.randrange(ns), 'p': rng.choice(['x', 'y']), 'f': 'str'}
-        k = weighted(rng, [('param', 4), ('bind', 3), ('bind2', 1), ('method', 1.5), ('rx', 2),
+        k = weighted(rng, [('param', 4), ('bind', 3), ('bind2', 1), ('method', 1.5), ('rx', 2), ('msub', 1.2 if pname in ('a', 'b') else 0),
                            ('abind', 1.2 if depth == 0 and pname in ('a', 'b') else 0)])
+        if k == 'msub':
+            return {'k': k, 's': rng.randrange(ns)}
         if k == 'abind':
             return {'k': k, 's': rng.randrange(ns), 'p': rng.choice(['x', 'y'])}
         if k == 'param':
@@ -143,10 +149,14 @@ class RefsWorld:
                 after_reject = 2
             else:
                 k = weighted(rng, [('src', 8), ('link', 5), ('plain', 2.5), ('update1', 1), ('uctx_open', 1), ('uctx_close', 1.2), ('ctor', 0.6),
-                                   ('drain', 1.5), ('step', 2), ('reent_over', 0.8), ('trigger', 0.8)])
+                                   ('drain', 1.5), ('step', 2), ('reent_over', 0.8), ('trigger', 0.8), ('subv', 1.0), ('sub_gap', 1.0)])
             t = rng.randrange(3)
             pn = rng.choice(TPARAMS[:4])
-            if k == 'src':
+            if k == 'subv':
+                ops.append({'op': 'src', 's': rng.randrange(ns), 'p': 'subv', 'v': rng.randint(0, 4)})
+            elif k == 'sub_gap':
+                ops.append({'op': 'sub_gap', 't': t, 'v': rng.randint(0, 10), 'how': rng.choice(['plain', 'plain', 'link'])})
+            elif k == 'src':
                 big_v = rng.random() < (0.08 if rr else 0.03)
                 ops.append({'op': 'src', 's': rng.randrange(ns), 'p': rng.choice(['x', 'y']), 'v': rng.randint(11, 15) if big_v else rng.randint(0, 5)})
             elif k == 'link':
@@ -305,10 +315,20 @@ class _Run:
             x = param.Number(default=1)
             y = param.Number(default=2)
 
+            sub = param.Parameter(default=None)
+
             @param.depends('x')
             def m(self):
                 return self.x + 1
+
+            @param.depends('x', 'sub.v')
+            def ms(self):
+                return self.x + (self.sub.v if self.sub is not None else 0)
+
+        class Leaf(param.Parameterized):
+            v = param.Number(default=1)
         self.Src = Src
+        self.Leaf = Leaf
         self.init_action = None
 
         def _oninit(self_obj):
@@ -328,8 +348,8 @@ class _Run:
             'comp': param.Composite(attribs=['a', 'b']),
         })
         self.SubTgt = type('SubTgt', (self.Tgt,), {})       # inherits every Parameter: a class-level set copies on write
-        self.src = [Src() for _ in range(self.cfg['n_src'])]
-        self.msrc = [{'x': 1, 'y': 2} for _ in self.src]
+        self.src = [Src(sub=Leaf()) for _ in range(self.cfg['n_src'])]
+        self.msrc = [{'x': 1, 'y': 2, 'subv': 1} for _ in self.src]
         self.tainted = set()          # sources whose last update raised
         self.base = []
         for i, s in enumerate(self.src):
@@ -373,6 +393,8 @@ class _Run:
             return param.bind(later, getattr(self.src[ref['s']].param, ref['p']))
         if k == 'method':
             return self.src[ref['s']].m
+        if k == 'msub':
+            return self.src[ref['s']].ms
         if k == 'rx':
             before = [self.wcount(s) for s in self.src]
             e = getattr(self.src[ref['s']].param, ref['p']).rx()
@@ -562,7 +584,10 @@ class _Run:
             self.msrc[s][op['p']] = op['v']
             allok = self.model_src_change(s, op['p'])
             try:
-                setattr(self.src[s], op['p'], op['v'])
+                if op['p'] == 'subv':
+                    self.src[s].sub.v = op['v']
+                else:
+                    setattr(self.src[s], op['p'], op['v'])
                 raised = False
             except Exception as e:      # noqa
                 raised = True
@@ -575,6 +600,43 @@ class _Run:
             else:
                 self.tainted.add((s, op['p']))
                 self.out.stats['fault.source_went_invalid'] += 1
+            return
+        if k == 'sub_gap':
+            # one link of an object is ended (plain value) or replaced while ANOTHER of its references cannot be resolved: a
+            # method depending on 'sub.v' while the source's sub-object is missing for a moment. The other links keep working.
+            ti = op.get('t', 0) % nt
+            gaps = sorted(q for q, r in self.links[ti].items() if r['k'] == 'msub')
+            others = sorted(q for q, r in self.links[ti].items() if q in ('a', 'b') and r['k'] not in ('msub', 'abind', 'nested')
+                            and (ti, q) not in self.pending)
+            if self.uctx[ti]:
+                return
+            if not gaps or not others:
+                # (set the scene: one parameter follows the method, the other one a plain Parameter)
+                s0 = op.get('v', 0) % len(self.src)
+                if self.msrc[s0]['x'] + self.msrc[s0]['subv'] > 10 or self.msrc[s0]['y'] > 10 or (s0, 'x') in self.tainted or (s0, 'y') in self.tainted:
+                    return
+                if not gaps:
+                    q = 'b' if 'a' in others else 'a'
+                    self.do({'op': 'link', 't': ti, 'p': q, 'ref': {'k': 'msub', 's': s0}})
+                gaps = sorted(q for q, r in self.links[ti].items() if r['k'] == 'msub')
+                if gaps and not [q for q in others if q != gaps[0]]:
+                    q = 'b' if gaps[0] == 'a' else 'a'
+                    self.do({'op': 'link', 't': ti, 'p': q, 'ref': {'k': 'param', 's': s0, 'p': 'y'}})
+                others = sorted(q for q, r in self.links[ti].items() if q in ('a', 'b') and r['k'] not in ('msub', 'abind', 'nested')
+                                and (ti, q) not in self.pending)
+                if not gaps or not others or self.out.violations:
+                    return
+            s = self.links[ti][gaps[0]]['s']
+            leaf = self.src[s].sub
+            self.src[s].sub = None
+            try:
+                if op.get('how') == 'link':
+                    self.do({'op': 'link', 't': ti, 'p': others[0], 'ref': {'k': 'param', 's': s, 'p': 'y'}})
+                else:
+                    self.do({'op': 'plain', 't': ti, 'p': others[0], 'v': op['v']})
+            finally:
+                self.src[s].sub = leaf
+            self.out.stats['probe.link_ended_while_another_reference_is_unresolvable'] += 1
             return
         if k == 'drain':
             self.drain()
